@@ -631,10 +631,10 @@ pub fn plan_ultra_world(ws: u64, corpus: &Corpus, o: &PlanOpts, env: &Env) -> Wo
     for i in 0..k {
         reference.events.push(Event::Expand { tid: 0, input: i as u32 });
     }
-    // fillers: 2048 different small inputs that share no name with anything above and none with
+    // fillers: 8192 different small inputs that share no name with anything above and none with
     // each other (a steady supply of new type paths: tables with a capacity overflow every few
     // hundred expansions); each mentions its first counterpart again after another one
-    let n_fill = 2048usize;
+    let n_fill = 8192usize;
     let mut texts = texts;
     for i in 0..n_fill {
         // (1, 2 or 3 new type paths per filler, in no regular pattern: a table's fill level meets
@@ -744,6 +744,17 @@ pub fn plan_world(ws: u64, corpus: &Corpus, o: &PlanOpts) -> World {
         }
         if f & F_ENV != 0 {
             cfg.env = plan_env(&mut rng, &o.feedback, &corpus.dict_env);
+            // a prefix found in the sources + the name of a type of this world ("O2O_SKIP_" + "ENTITY")
+            for p in &corpus.dict_env_prefixes {
+                for it in items.iter().take(6) {
+                    if rng.chance(1, 3) {
+                        cfg.env.push((format!("{}{}", p, it.name.to_uppercase()), "1".to_string()));
+                        cfg.env.push((format!("{}{}", p, it.name), "1".to_string()));
+                    }
+                }
+            }
+            cfg.env.sort();
+            cfg.env.dedup_by(|a, b| a.0 == b.0);
         }
         if f & F_CLOCK != 0 {
             cfg.clock_epoch_ns = (rng.next_u64() % 4_000_000_000_000_000_000) as i64;
